@@ -159,10 +159,11 @@ where
 
         let attribute_header = if self.is_attribute { ", attribute = true" } else { "" };
 
-        if let Some(tns) = &self.target_namespace {
+        // an attribute is unqualified (`form` / `attributeFormDefault` are not supported): it carries no prefix
+        if let Some(tns) = self.target_namespace.as_ref().filter(|_| !self.is_attribute) {
             writeln!(
                 writer,
-                "    #[yaserde(prefix = {:?}, rename = {:?}{attribute_header})]",
+                "    #[yaserde(prefix = {:?}, rename = {:?})]",
                 tns.abbreviation, self.xml_name
             )?;
         } else {
